@@ -22,5 +22,4 @@ NOT_APPLICABLE = {
            'iterates BTreeMaps, assignment/scoping/branch merging are arms of compile.',
  'C08': UNDER_CONSTRUCTION, 'C09': UNDER_CONSTRUCTION,
     'C10': UNDER_CONSTRUCTION, 'C12': UNDER_CONSTRUCTION,
-    'C17': UNDER_CONSTRUCTION,
 }
